@@ -758,12 +758,11 @@ class KernelSim(WorldBase):
         if self.prop == "C15":
             # a program that measures several configurations keeps each report and tabulates them afterwards:
             # the report of an earlier session stays what it was when a later session begins and runs
-            for n0, held, asread in self.held_dumps:
+            for n0, held, asread, then_ops in self.held_dumps:
                 try:
                     now_ops = [Compute.numOps(held, op) for op in ("mul", "update", "add")]
-                    then_ops = [Compute.numOps(asread, op) for op in ("mul", "update", "add")]
                 except Exception:
-                    now_ops = then_ops = None
+                    now_ops = None
                 if now_ops != then_ops:
                     self.V("C15", "C15.isolated-counts", "session",
                            f"Compute.numOps on the report of session {n0} gave {then_ops} (mul/update/add) for that session's "
@@ -773,7 +772,11 @@ class KernelSim(WorldBase):
                            f"the report dump() returned after session {n0} read {asread} then; after session {self.nsess} "
                            f"the same object reads {held}")
             if raw_dump is not None and end != "abandon" and not end_err and not Metrics.isCollecting():
-                self.held_dumps.append((self.nsess, raw_dump, copy.deepcopy(raw_dump)))
+                try:
+                    ops_then = [Compute.numOps(raw_dump, op) for op in ("mul", "update", "add")]
+                except Exception:
+                    ops_then = None
+                self.held_dumps.append((self.nsess, raw_dump, copy.deepcopy(raw_dump), ops_then))
                 self.held_dumps = self.held_dumps[-4:]
         files = {}
         for p in sorted(fs.written):
@@ -1834,12 +1837,15 @@ class KernelSim(WorldBase):
             isect["obj"].addTraces(*ts)
         except Exception as e:
             isect["err"] = f"{type(e).__name__}: {str(e)[:60]}"
-        if isect.get("rival") and isect["drains"] == 1 and isect.get("obj") is not None:
+        if isect.get("rival") and not isect.get("rivaled") and isect.get("obj") is not None \
+                and any(len(t) > 0 for t in ts):
+            isect["rivaled"] = True           # (only once the first model has seen its first non-empty batch)
             # another model object of the same kind, watching an intersection at another loop depth, starts now
             try:
                 rival = type(isect["obj"])()
-                t1 = [["X_pos", "X", "fiber_pos"], [0, 1, 0], [1, 3, 1]]
-                t2 = [["X_pos", "X", "fiber_pos"], [0, 1, 0], [1, 2, 1], [2, 3, 2]]
+                hd = ["P_pos", "Q_pos", "X_pos", "P", "Q", "X", "fiber_pos"]
+                t1 = [hd, [0, 0, 0, 0, 0, 1, 0], [0, 0, 1, 0, 0, 3, 1]]
+                t2 = [hd, [0, 0, 0, 0, 0, 1, 0], [0, 0, 1, 0, 0, 2, 1], [0, 0, 2, 0, 0, 3, 2]]
                 rival.addTraces(*([t1] if len(ts) == 1 else [t1, t2]))
                 self.probe("rival_model_started_in_between")
             except Exception:
